@@ -78,7 +78,7 @@ func (r *region) alloc(n int) []float64 {
 	if n < classCount && r.cursor[n]+n <= classSlots {
 		off := n*classSlots + r.cursor[n]
 		r.cursor[n] += n
-		return r.floats[off : off+n : off+n]
+		return zeroed(r.floats[off : off+n : off+n])
 	}
 	if r.used+n > len(r.floats) {
 		r.heapOut++
@@ -86,6 +86,16 @@ func (r *region) alloc(n int) []float64 {
 	}
 	s := r.floats[r.used : r.used+n : r.used+n]
 	r.used += n
+	return zeroed(s)
+}
+
+// zeroed clears memory the region hands out again (the region is reused by
+// every run; what a run leaves behind must not leak into the next one, e.g.
+// through a sequence's spare capacity).
+func zeroed(s []float64) []float64 {
+	for i := range s {
+		s[i] = 0
+	}
 	return s
 }
 
@@ -336,6 +346,19 @@ func buildPool(m *vs.Stream, freeze bool) (*pool, error) {
 	for i := 0; i < 2; i++ {
 		addBuf("geojson", []byte(gen.GrammarGeoJSON(m, 2)))
 		addBuf("wkt", []byte(gen.GrammarWKT(m, 2)))
+	}
+	// a structurally sound but OGC-invalid polygon (holes touching each other
+	// and the shell at lattice points): decoders that validate must report the
+	// same error every time
+	{
+		ig := gen.New(m, p.lat, gen.Cfg{MaxPts: 12, MaxParts: 3, Invalid: true, ForceType: 3})
+		bad := ig.TouchingHolesPolygon()
+		if m.Intn(2, "buf/badfmt") == 0 {
+			addBuf("wkt", []byte(bad.AsText()))
+		} else {
+			js, _ := bad.MarshalJSON()
+			addBuf("geojson", js)
+		}
 	}
 	addBuf("feature", []byte(gen.GrammarFeature(m)))
 	addBuf("featurecollection", []byte(`{"type":"FeatureCollection","features":[`+gen.GrammarFeature(m)+`,`+gen.GrammarFeature(m)+`]}`))
